@@ -675,7 +675,7 @@ func (s *Sys) onMulti(name string, before []driver.Obs[error], want []int, id in
 // planInterval is the Throttling interval / Emit frequency of a plan: whole
 // milliseconds plus an optional sub-millisecond part.
 func planInterval(p *driver.Plan) time.Duration {
-	return time.Duration(p.IntervalMs)*time.Millisecond + time.Duration(p.X("interval_us"))*time.Microsecond
+	return time.Duration(p.IntervalMs)*time.Millisecond + time.Duration(p.X("interval_us"))*time.Microsecond + time.Duration(p.X("interval_ns"))
 }
 
 // BuildStage creates the stage named by the plan with producers and consumers.
